@@ -330,7 +330,7 @@ pub fn check_project(p: &Project, opts: &CheckOpts, dir: &Path, t: &mut Tape) ->
             }
         }
         got.sort();
-        let expected_w = match model_key_warnings(p, false) {
+        let expected_w = match model_key_warnings(p, cfg!(feature = "suppress_key_warnings")) {
             Ok(w) => w,
             Err(e) => return Err(fail("harness-model", json!({"model_error": format!("{:?}", e)}))),
         };
